@@ -96,9 +96,26 @@ def run(p):
             for i in ANGLE_IN[ep]:
                 vals[i] = CV.dec2hp(vals[i])
             p.stats.add('inputs:hp-valid')
+            if rng.random() < 0.35:
+                # HP values as people write them: whole minutes, whole seconds, whole degrees (37.48, 144.4259, -33.0)
+                for i in ANGLE_IN[ep]:
+                    sg = -1.0 if vals[i] < 0 else 1.0
+                    d = int(abs(vals[i]))
+                    m, s_ = rng.randrange(60), rng.choice([0, 0, rng.randrange(60)])
+                    if i == 0 or (ep == 'vincinv' and i == 2):
+                        d = min(d, 89)
+                    vals[i] = sg * float(f'{d}.{m:02}{s_:02}')
+                p.stats.add('inputs:hp-whole-minutes-or-seconds')
         else:
             p.stats.add('inputs:decimal')
         one(p, client, ep, ft, tt, vals)
+        if rng.random() < 0.15:
+            # the same four numbers to the OTHER endpoint straight afterwards, then the first one again: each answer is that
+            # endpoint's own (nothing may be carried from one request to the next)
+            other = 'vincdir' if ep == 'vincinv' else 'vincinv'
+            one(p, client, other, ft, tt, vals)
+            one(p, client, ep, ft, tt, vals)
+            p.stats.add('sequence:same-numbers-both-endpoints')
     # index: requested repeatedly, from the same and from fresh clients, interleaved with the geodesic calls above —
     # it must list every endpoint EVERY time (state shared between requests would show on the later ones)
     rules = sorted(x.rule for x in app.url_map.iter_rules() if x.endpoint != 'static')
